@@ -342,10 +342,37 @@ def _gen_once(rng, size, feat):
             m = rng.randint(2, 3)
             add("cond", ins, [new_port(ports[i]["type"], shape) for i in ins], m=m, r=rng.randrange(m), mode=mode)
         elif kind == "exec":
-            ins = pick(lambda p: p["type"] == "I", n=rng.choice([1, 1, 2]), same_shape=True)
-            if ins is None or any(ports[i]["type"] != "I" for i in ins):
-                continue
-            add("exec", ins, [new_port("I", ports[ins[0]]["shape"])], k=rng.randint(0, 3))
+            motif = rng.random()
+            if motif < 0.35:
+                # jobs complete in a schedule-dependent order: join the reordered port with its in-order sibling
+                ins = pick(lambda p: p["type"] == "I" and len(p["shape"]) >= 2)
+                if ins is None:
+                    continue
+                p = ports[ins[0]]
+                x = new_port("I", p["shape"])
+                add("exec", ins, [x], k=rng.randint(0, 3))
+                if rng.random() < 0.5:
+                    add("tf", [x, ins[0]], [new_port("I", p["shape"])], fn="lin", k=rng.randint(0, 3))
+                else:
+                    add("tf", [ins[0], x], [new_port(_type_list("I"), p["shape"])], fn="pair", k=0)
+            elif motif < 0.65:
+                # the canonical scatter -> job -> gather pipeline
+                ins = pick(lambda p: p["type"] == _type_list("I") and len(p["shape"]) < 3)
+                if ins is None:
+                    continue
+                p = ports[ins[0]]
+                size_port = new_port("I", p["shape"], role="size")
+                lv = new_level(size_port)
+                el = new_port("I", p["shape"] + (lv,))
+                add("scatter", ins, [el, size_port])
+                x = new_port("I", p["shape"] + (lv,))
+                add("exec", [el], [x], k=rng.randint(0, 3))
+                add("gather", [x, size_port], [new_port(_type_list("I"), p["shape"])], depth=1)
+            else:
+                ins = pick(lambda p: p["type"] == "I", n=rng.choice([1, 1, 2]), same_shape=True)
+                if ins is None or any(ports[i]["type"] != "I" for i in ins):
+                    continue
+                add("exec", ins, [new_port("I", ports[ins[0]]["shape"])], k=rng.randint(0, 3))
     spec["nports"] = len(ports)
     return spec
 
@@ -422,10 +449,7 @@ async def build(context, spec: dict, workdir: str):
         elif kind == "exec":
             if translator is None:
                 translator = await _exec_translator(context, workflow, workdir)
-            expr = "0"
-            for j in range(len(n["ins"])):
-                expr = f"(({expr}) * 31 + x['i{j}'].value)"
-            command = f"lambda x: ('copy', 'primitive', {expr} + {n.get('k', 0)})"
+            command = "lambda x: ('copy', 'primitive', 0)"   # replaced below by GenCommand
             before = set(workflow.steps)
             step = translator.get_execute_pipeline(
                 command=command, deployment_names=[translator._sfv_deployment],
@@ -433,6 +457,8 @@ async def build(context, spec: dict, workdir: str):
                 outputs={}, step_name=name, workflow=workflow)
             from tests.utils.workflow import EvalCommandOutputProcessor
             step.add_output_port("o0", ports[n["outs"][0]], EvalCommandOutputProcessor("o0", workflow, "primitive"))
+            from sfv.rt import wfsteps
+            step.command = wfsteps.GenCommand(step, k=n.get("k", 0), nin=len(n["ins"]))
             node_steps[n["id"]] = sorted(set(workflow.steps) - before)
             continue
         else:
@@ -499,6 +525,9 @@ def run_spec(spec: dict, seed: int, workdir: str, timeout: float = 60.0, shuffle
         from streamflow.workflow.token import IterationTerminationToken, JobToken, TerminationToken
 
         _, _, _, tokval = _classes()
+        from sfv.rt import wfsteps
+        wfsteps.JOB_RNG = random.Random(seed * 7919 + 13)
+        wfsteps.JOB_JITTER = float(os.environ.get("SFV_JOB_JITTER", "0.03")) if shuffle else 0.0
         context = make_context(workdir)
         try:
             workflow, ports, node_steps = await build(context, spec, workdir)
